@@ -52,9 +52,32 @@ FinWhy(e) ==
   ELSE IF e.fin = 0 THEN "non-finite-result"
   ELSE "ok"
 
+(* operator calls recorded by the C10 driver: node, in (with alpha for the Alpha forms), in2, args, out = list of colours *)
+OpWhy(e) ==
+  IF ~InDomain(e.node, e.t, e["in"]) THEN "ok"
+  ELSE IF e.in2 # <<>> /\ ~InDomain(e.node, e.t, e.in2) THEN "ok"
+  ELSE IF ~AllFin(e.args) THEN "ok"
+  \* component-wise division by a colour or scalar with a zero component has no finite value: not judged
+  ELSE IF e.fam = "Div" /\ ((\E i \in DOMAIN e.in2 : e.in2[i][1] = 0) \/ (\E i \in DOMAIN e.args : e.args[i][1] = 0)) THEN "ok"
+  ELSE IF e.panic = 1 THEN "panic"
+  ELSE IF \E i \in DOMAIN e.out : ~AllFin(e.out[i]) THEN "non-finite-result"
+  ELSE "ok"
+
+(* blends, compositing, premultiplication recorded by the C08 driver: straight colours ss/sd and the alphas
+   (last element of src/dst) in the unit range, on a bound or a billionth away *)
+UnitB == <<Q(0, 1), Q(1, 1)>>
+UnitOk(js) == AllFin(js) /\ \A i \in DOMAIN js : CompInDomain(FxOf(js[i]), UnitB)
+BlendWhy(e) ==
+  IF ~(UnitOk(e.ss) /\ UnitOk(e.sd) /\ UnitOk(<<e.src[Len(e.src)], e.dst[Len(e.dst)]>>)) THEN "ok"
+  ELSE IF e.panic = 1 THEN "panic"
+  ELSE IF ~AllFin(e.out) THEN "non-finite-result"
+  ELSE "ok"
+
 Why(e) == CASE e.ev = "walk" -> WalkWhy(e)
             [] e.ev = "bounds" -> BoundsWhy(e)
             [] e.ev = "fin" -> FinWhy(e)
+            [] e.ev = "op" -> OpWhy(e)
+            [] e.ev \in {"blend", "compose", "custom", "eqn"} -> BlendWhy(e)
             [] OTHER -> "ok"
 
 TInit == l = 1
